@@ -98,6 +98,34 @@ PROJ = {"proj.ortho": "x x x x x x", "proj.ortho_s": "x x x x x x", "proj.frustu
         "proj.perspective_deg": "x x x x", "proj.planar": "x x x x x", "proj.planar_s": "x x x x x",
         "proj.to_perspective": "x x x x"}
 
+# operations added for C18 / C16 (harness/src/ops/extra.rs, lean/Cgm/Driver/OpsExtra.lean); `T` is the type itself.
+# They are NOT picked up by `ops_with_prefix` (props.py): they belong to C18 / C16 only.
+APPROX_TYPES = {"v1": "V1", "v2": "V2", "v3": "V3", "v4": "V4", "p1": "P1", "p2": "P2", "p3": "P3",
+                "m2": "M2", "m3": "M3", "m4": "M4", "q": "Q", "rad": "x", "deg": "x"}
+APPROX = {"abs_diff_eq": "T T x", "relative_eq": "T T x x", "ulps_eq": "T T x #8",
+          "abs_diff_eq_d": "T T", "relative_eq_d": "T T", "ulps_eq_d": "T T"}
+ARRAY_TYPES = {"v1": "V1", "v2": "V2", "v3": "V3", "v4": "V4", "p1": "P1", "p2": "P2", "p3": "P3"}
+ARRAY = {"set": "T x #n", "swap_elements": "T #n #n"}
+EXTRA_SPECIAL = {"q.index": "Q #4", "q.set": "Q x #4", "m2.set": "M2 x #2 #2", "m3.set": "M3 x #3 #3", "m4.set": "M4 x #4 #4"}
+
+
+def extra_ops():
+    sig = {}
+    for ty, k in APPROX_TYPES.items():
+        for op, s in APPROX.items():
+            sig[f"{ty}.{op}"] = s.replace("T", k).split()
+    for ty, k in ARRAY_TYPES.items():
+        for op, s in ARRAY.items():
+            sig[f"{ty}.{op}"] = s.replace("T", k).replace("#n", "#" + k[1]).split()
+    for k, s in EXTRA_SPECIAL.items():
+        sig[k] = s.split()
+    return sig
+
+
+EXTRA = extra_ops()
+C18_OPS = [k for k in EXTRA if k.split(".")[1] in APPROX]
+C16_OPS = [k for k in EXTRA if k not in C18_OPS]
+
 
 def build():
     sig = {}
@@ -127,6 +155,7 @@ def build():
             sig[f"{ty}.{op}"] = sg.split()
     for k, v in PROJ.items():
         sig[k] = v.split()
+    sig.update(EXTRA)
     return sig
 
 
